@@ -21,7 +21,12 @@
 //! `<rule>@<context>` = a diagnostic of the rule's category must be reported,
 //! `finding:<id>:<shape>:<accept|reject>` = witness of a known defect, checked by `checks/c09.py`).
 //!
-//! Other actions: `gen --seed S --n N --kind valid|viol|mixed|findings`, `mk` (source lines on stdin
+//! `run` answers every request inside a worker subprocess (`crate::pipe::supervise`): a program on which
+//! the checker does not return, or kills the process (abort on arena exhaustion, stack overflow), is
+//! answered `diags=? end=hang` / `diags=? end=abort:<status>` (`viol=? end=…` for `wf`) and reported as
+//! `ORACLE-FAIL <line> [C07] …`; the stream continues in a fresh worker. `run --inproc`: no isolation.
+//!
+//! Other actions: `gen --seed S --n N --kind valid|viol|mixed|rec|findings`, `mk` (source lines on stdin
 //! -> request lines), `probe-types` (prints the probed static type tables).
 
 #[path = "factsio.rs"]
@@ -47,7 +52,12 @@ use crate::util::{self, Out, Rng};
 pub fn main(args: &[String]) -> i32 {
     match args.first().map(String::as_str) {
         Some("gen") => generate(&args[1..]),
-        Some("run") => run(),
+        Some("run") if util::flag(&args[1..], "--inproc") => worker(&args[1..]),
+        Some("run") => crate::pipe::supervise(&["resolve", "worker"], "static checker", &|line, what| {
+            // `end=hang` / `end=abort:<status>`: the checker did not return on this program
+            if line.starts_with("wf ") { format!("viol=? end={what}") } else { format!("diags=? end={what}") }
+        }),
+        Some("worker") => worker(&args[1..]),
         Some("mk") => mk(&args[1..]),
         Some("probe-types") => {
             let mut kv = Vec::new();
@@ -81,12 +91,24 @@ fn diags_join(v: Vec<String>) -> String {
     if v.is_empty() { "-".to_string() } else { v.join(",") }
 }
 
-fn run() -> i32 {
+/// Answers request lines one by one, flushing each answer: the body of the supervised worker
+/// (`crate::pipe::supervise`: a program on which the checker hangs or kills the process is answered
+/// `diags=? end=hang` / `end=abort:<status>` by the parent and a fresh worker continues) and of
+/// `run --inproc`. `--base N`: the 1-based number of the first line minus one.
+fn worker(args: &[String]) -> i32 {
+    use std::io::{BufRead, Write};
+    let base = util::opt_u64(args, "--base", 0) as usize;
+    crate::pipe::limit_address_space();
     util::silence_panics();
-    let mut out = Out::new();
-    for (i, line) in util::stdin_lines().iter().enumerate() {
-        let ans = util::catch(|| answer(line, i + 1)).unwrap_or_else(|m| format!("panic {}", m.replace('\n', " ")));
-        out.line(&ans);
+    let stdin = std::io::stdin();
+    let stdout = std::io::stdout();
+    for (i, line) in stdin.lock().lines().map_while(Result::ok).enumerate() {
+        let mut ans = util::catch(|| answer(&line, base + i + 1)).unwrap_or_else(|m| format!("panic {}", m.replace('\n', " ")));
+        ans.push('\n');
+        let mut o = stdout.lock();
+        if o.write_all(ans.as_bytes()).is_err() || o.flush().is_err() {
+            return 1;
+        }
     }
     0
 }
@@ -621,6 +643,12 @@ struct Frame {
 }
 
 const VARS: &[&str] = &["a", "b", "c", "x", "y", "n", "s", "t"];
+/// String templates around ONE placeholder of the name `N` (`{{` and `}}` are the escapes for a
+/// literal brace; they mean nothing inside a placeholder, so `{{{N}}}` is `{`, the placeholder, `}`).
+const SEG_SHAPES: &[&str] = &[
+    "v {N} w", "{N}", "{{{N}}}", "{N}}}", "{{{N}", "}}{N}{{", "{ N }", "{{ {N} }}", "{{{{{N}}}}}", "{{q}}{N}", "a{N}}} {{b",
+    "{{{N}}}: {{{N}}}", "{}{N}", "{1x}{N}}}",
+];
 const FNS: &[&str] = &["f", "g", "h", "k"];
 
 struct Gen<'r> {
@@ -716,12 +744,25 @@ impl Gen<'_> {
         if self.hit() {
             let n = self.unbound_name();
             self.mark("undeclaredSeg", &format!("{site}-istr"));
-            return format!("\"v {{{n}}} w\"");
+            // the placeholder `{N}` in every neighbourhood the template scanner distinguishes: plain,
+            // wrapped in / followed by / preceded by the escapes `{{` and `}}`, padded, after text
+            // that is not a placeholder
+            return format!("\"{}\"", self.rng.pick(SEG_SHAPES).replace('N', &n));
         }
         if !vis.is_empty() && self.rng.chance(1, 3) {
             let a = self.rng.pick(&vis).0.clone();
             let b = self.rng.pick(&vis).0.clone();
-            return if self.rng.chance(1, 2) { format!("\"p {{{a}}} q\"") } else { format!("\"{{{a}}}{{{b}}}!\"") };
+            return match self.rng.below(4) {
+                0 => format!("\"p {{{a}}} q\""),
+                1 => format!("\"{{{a}}}{{{b}}}!\""),
+                2 => format!("\"{}\"", self.rng.pick(SEG_SHAPES).replace('N', &a)),
+                _ => format!("\"{}{}\"", self.rng.pick(SEG_SHAPES).replace('N', &a), self.rng.pick(SEG_SHAPES).replace('N', &b)),
+            };
+        }
+        if self.rng.chance(1, 6) {
+            // escaped braces around a name are text, not a use: any name is fine there
+            let n = self.unbound_name();
+            return format!("\"{}\"", self.rng.pick(&["{{N}}", "{{{{N}}}}", "{{ N }}", "a {{N}} b", "{{N}} }}"]).replace('N', &n));
         }
         ["\"\"", "\"hi\"", "\"a b\"", "\"ẹ́\""][self.rng.below(4) as usize].to_string()
     }
@@ -1158,7 +1199,7 @@ impl Gen<'_> {
     }
 }
 
-fn gen_program(rng: &mut Rng, inject: Option<i64>, wild: bool) -> (String, Option<String>) {
+pub(crate) fn gen_program(rng: &mut Rng, inject: Option<i64>, wild: bool) -> (String, Option<String>) {
     let mut g = Gen {
         rng,
         frames: Vec::new(),
@@ -1174,6 +1215,119 @@ fn gen_program(rng: &mut Rng, inject: Option<i64>, wild: bool) -> (String, Optio
     };
     let src = g.block(3, false);
     (src, g.injected)
+}
+
+/// (Mutually) recursive functions whose return value combines the result of a call in the cycle
+/// with a literal — often of ANOTHER type than the call's inferred one — by a comparison, arithmetic,
+/// a logical or unary operator, an index or a method: the inferred return type of such a function
+/// need not settle (`f() na 1` is boolean while `f` is still dynamic, untypable once `f` is boolean),
+/// so return-type inference over the functions of a block must be bounded. The cycle sits at top
+/// level or inside a block / loop / branch / function body; forwarders (`return g(n)`), base cases
+/// and users of the result in typed positions are mixed in. `callable`: every function has a base
+/// case and only decrementing calls, and the program calls into the cycle (it terminates at run time).
+pub(crate) fn gen_rec_program(rng: &mut Rng, callable: bool) -> String {
+    const NAMES: &[&str] = &["f", "g", "h", "ra", "rb", "rc"];
+    // weighted: numbers and strings most often (a comparison with them is accepted while the call is
+    // still dynamic), arrays and null rarely (mostly rejected outright)
+    const LITS: &[&str] = &[
+        "1", "1", "0", "2.5", "10", "1", "\"s\"", "\"s\"", "\"\"", "\"a b\"", "true", "true", "false", "null", "[1]", "[]",
+    ];
+    const CMP: &[&str] = &["na", "pass", "small pass"];
+    const ARI: &[&str] = &["add", "minus", "times", "divide", "mod"];
+    const LOG: &[&str] = &["and", "or"];
+    let k = 1 + rng.below(3) as usize;
+    let first = rng.below(NAMES.len() as u64) as usize;
+    let names: Vec<&str> = (0..k).map(|i| NAMES[(first + i) % NAMES.len()]).collect();
+    let arity = if callable { 1 } else { rng.below(3) as usize };
+    let params = ["n", "m", "p"][..arity].join(", ");
+    let call = |rng: &mut Rng, callee: &str, decrement: bool| -> String {
+        let args: Vec<String> = (0..arity)
+            .map(|i| {
+                if i == 0 && (decrement || rng.chance(1, 2)) {
+                    "n minus 1".to_string()
+                } else if i == 0 && callable {
+                    "n".to_string()
+                } else {
+                    (*rng.pick(&["n", "1", "0", "\"a\"", "true"])).to_string()
+                }
+            })
+            .collect();
+        format!("{callee}({})", args.join(", "))
+    };
+    let forwarder = if k > 1 && rng.chance(1, 2) { Some(rng.below(k as u64) as usize) } else { None };
+    let mut defs: Vec<String> = Vec::new();
+    for i in 0..k {
+        // (a forwarder must not forward to itself: with `callable` the program has to terminate)
+        let next = if forwarder != Some(i) && rng.chance(1, 5) { names[i] } else { names[(i + 1) % k] };
+        let mut body = String::new();
+        if arity > 0 && (callable || rng.chance(1, 2)) {
+            let base = if rng.chance(1, 2) { (*rng.pick(LITS)).to_string() } else { "true".to_string() };
+            body.push_str(&format!("    if to say (n small pass 1) start\n        return {base}\n    end\n"));
+        }
+        if forwarder == Some(i) {
+            // the forwarder passes `n` on unchanged; the other members decrement
+            let c = if callable { format!("{next}(n)") } else { call(rng, next, false) };
+            body.push_str(&format!("    return {c}\n"));
+        } else {
+            let c = call(rng, next, callable);
+            let lit = *rng.pick(LITS);
+            let e = match rng.below(14) {
+                0..=3 => format!("{c} {} {lit}", rng.pick(CMP)),
+                4 => format!("{lit} {} {c}", rng.pick(CMP)),
+                5 | 6 => format!("{c} {} {lit}", rng.pick(ARI)),
+                7 => format!("{lit} {} {c}", rng.pick(ARI)),
+                8 => format!("{c} {} {lit}", rng.pick(LOG)),
+                9 => format!("{} {c}", rng.pick(&["not", "minus"])),
+                10 => format!("({c} {} {lit}) {} {}", rng.pick(CMP), rng.pick(&["na", "and", "or", "add"]), rng.pick(LITS)),
+                11 => format!("{c} {} {}", rng.pick(CMP), call(rng, names[i], callable)),
+                12 => (*rng.pick(&["{C}[0]", "[{C}]", "{C}.len()", "to_string({C})", "typeof({C}) na 1", "\"{n}\" na {C}"])).replace("{C}", &c),
+                _ => format!("{c} {} {lit} {} {}", rng.pick(CMP), rng.pick(CMP), rng.pick(LITS)),
+            };
+            // the trailing `"{n}"` shape needs a parameter
+            let e = if arity == 0 { e.replace("\"{n}\"", "\"n\"") } else { e };
+            body.push_str(&format!("    return {e}\n"));
+        }
+        defs.push(format!("do {}({params}) start\n{body}end", names[i]));
+    }
+    // where the functions are declared relative to their users, and in which order
+    if rng.chance(1, 2) {
+        defs.reverse();
+    }
+    let arg = match arity {
+        0 => String::new(),
+        1 => (*rng.pick(&["2", "3", "1"])).to_string(),
+        _ => format!("{}, 0", rng.pick(&["2", "3", "1"])),
+    };
+    let entry = format!("{}({arg})", names[rng.below(k as u64) as usize]);
+    let user = match rng.below(if callable { 4 } else { 9 }) {
+        0 => format!("shout({entry})"),
+        1 => format!("make v get {entry}\nshout(typeof(v))"),
+        2 => format!("shout(to_string({entry}))"),
+        3 => "shout(\"ok\")".to_string(),
+        4 => format!("make v get {entry} add 1"),
+        5 => format!("if to say ({entry}) start\n    shout(1)\nend"),
+        6 => format!("make v get {entry} na \"s\""),
+        7 => format!("shout(minus {entry})"),
+        _ => String::new(),
+    };
+    let mut parts: Vec<String> = Vec::new();
+    if rng.chance(1, 3) {
+        parts.push(user.clone());
+        parts.extend(defs);
+    } else {
+        parts.extend(defs);
+        parts.push(user.clone());
+    }
+    let core = parts.into_iter().filter(|p| !p.is_empty()).collect::<Vec<_>>().join("\n");
+    // nesting context of the declaring block
+    match rng.below(if callable { 3 } else { 7 }) {
+        0 | 1 => core,
+        2 => format!("start\n{core}\nend"),
+        3 => format!("do outer() start\n{core}\nend\nouter()"),
+        4 => format!("make i get 0\njasi (i small pass 1) start\n{core}\ni get i add 1\nend"),
+        5 => format!("if to say (true) start\n{core}\nend if not so start\n{core}\nend"),
+        _ => format!("do outer(q) start\nif to say (q) start\n{core}\nend\nend"),
+    }
 }
 
 /// Witnesses of the known defects D-09b/c/d, each under a little random context.
@@ -1231,6 +1385,16 @@ fn generate(args: &[String]) -> i32 {
             "findings" => {
                 let (tag, s) = finding(&mut rng, produced);
                 (s, Some(tag))
+            }
+            "rec" => {
+                // no expectation: these programs serve the tie and the totality oracle (C07)
+                let s = gen_rec_program(&mut rng, false);
+                if rng.chance(1, 4) {
+                    let (pre, _) = gen_program(&mut rng, None, true);
+                    (format!("{pre}\n{s}"), None)
+                } else {
+                    (s, None)
+                }
             }
             _ => {
                 eprintln!("unknown --kind {kind}");
